@@ -166,6 +166,8 @@ def admitted_valid(tree):
 BAD_EXPR = {
     "no-default": "$x ->\n        [one] 1\n        [other] 2\n    ",
     "dup-default": "$x ->\n       *[one] 1\n       *[other] 2\n    ",
+    "dup-default-separated": "$x ->\n       *[zero] 0\n        [one] 1\n       *[other] 2\n    ",
+    "dup-default-far": "$x ->\n       *[zero] 0\n        [one] 1\n        [two] 2\n        [few] 3\n       *[other] 4\n    ",
     "msgref-selector": "msg ->\n       *[other] 2\n    ",
     "msgattr-selector": "msg.attr ->\n       *[other] 2\n    ",
     "termref-selector": "-term ->\n       *[other] 2\n    ",
@@ -308,7 +310,7 @@ class C03(Base):
     AREA = "parse"
     LEMMA_FILES = ["FluentProofs/ParserLoops.lean", "FluentProofs/ParserLines.lean", "FluentProofs/ParserBasics.lean", "FluentProofs/ParserHoareEntry.lean", "FluentProofs/ParserValid.lean", "FluentProofs/ParserValidLeaf.lean", "FluentProofs/ParserValidExpr.lean", "FluentProofs/ParserValidEntry.lean", "FluentProofs/ConstTieSyntax.lean", "FluentProofs/ParserLocalDefs.lean", "FluentProofs/ParserLocalLoop.lean", "FluentProofs/ParserLocalShiftLeaf.lean", "FluentProofs/ParserLocalShiftExpr.lean", "FluentProofs/ParserLocalShiftPat.lean", "FluentProofs/ParserLocalShiftEntry.lean", "FluentProofs/ParserLocalBarLeaf.lean", "FluentProofs/ParserLocalBarExpr.lean", "FluentProofs/ParserLocalBarEntry.lean", "FluentProofs/ParserLocalPreLeaf.lean", "FluentProofs/ParserLocalPreLeaf2.lean", "FluentProofs/ParserLocalPreExpr.lean", "FluentProofs/ParserLocalPreExpr2.lean", "FluentProofs/ParserLocalPreEntry.lean", "FluentProofs/ParserLocalPreLoop.lean", "FluentProofs/ParserLocalTop.lean"]
     RULE = ("the C01 generator mix (accounting clauses and the admission predicate recomputed on every output of both "
-            "parsers) plus the damage generator: random well-formed resource x entry index x 32 violation kinds (the "
+            "parsers) plus the damage generator: random well-formed resource x entry index x 34 violation kinds (the "
             "documented ones) x 7 placements (first line, continuation line, nested placeable, call argument, variant "
             "value, term value, attribute), original and damaged text parsed side by side. Non-trivial = the output has "
             ">=1 Junk AND >=1 admitted message/term, or it is a damage pair; distinct = distinct case line.")
